@@ -630,7 +630,8 @@ def run(*, tier, seed, jobs, progress, opts):
         errors += res.errors
         # delivery-timing differential on the states reached so far
         pdepth = int(opts.get('pair_depth', 2 if tier == 'quick' else 3))
-        if tier == 'quick' and (tls, local) != (False, False):
+        if (tls, local) not in ([(False, False)] if tier == 'quick'
+                                else [(False, False), (True, True)]):
             continue
         names = [e['name'] for e in m.alphabet()]
         quick_e1 = [names.index(n) for n in E1_QUICK]
